@@ -42,17 +42,27 @@ struct Case {
     cfg: Cfg,
     title: String,
     entries: Vec<(String, String)>,
+    /// load-edit-save: the archive is first built from BASE, serialized and parsed; then these
+    /// keys are deleted, the title is set if it differs from the base title, and `entries` are
+    /// applied as set_message calls (C06 also covers archives that were parsed and then edited)
+    loaded: Option<Vec<String>>,
+}
+
+const BASE_TITLE: &str = "T0";
+fn base_entries() -> Vec<(String, String)> {
+    vec![("first".into(), "x".into()), ("K".into(), "m0".into()), ("last".into(), "yz".into())]
 }
 
 fn case_json(c: &Case) -> Value {
-    json!({"fmt": format!("{:?}", c.cfg.fmt), "endian": format!("{:?}", c.cfg.e), "title": c.title, "entries": c.entries,
+    json!({"fmt": format!("{:?}", c.cfg.fmt), "endian": format!("{:?}", c.cfg.e), "title": c.title, "entries": c.entries, "loaded_then_deleted": c.loaded,
            "message_units": c.entries.iter().map(|e| e.1.encode_utf16().map(|u| format!("{:04x}", u)).collect::<Vec<_>>().join(" ")).collect::<Vec<_>>()})
 }
 fn case_from_json(v: &Value) -> Case {
     let fmt = if v["fmt"] == "ShiftJis" { Fmt::ShiftJis } else { Fmt::Unicode };
     let e = if v["endian"] == "Big" { End::Big } else { End::Little };
     let entries = v["entries"].as_array().map(|a| a.iter().map(|p| (p[0].as_str().unwrap_or("").to_string(), p[1].as_str().unwrap_or("").to_string())).collect()).unwrap_or_default();
-    Case { cfg: Cfg { fmt, e }, title: v["title"].as_str().unwrap_or("").to_string(), entries }
+    let loaded = v["loaded_then_deleted"].as_array().map(|a| a.iter().map(|x| x.as_str().unwrap_or("").to_string()).collect());
+    Case { cfg: Cfg { fmt, e }, title: v["title"].as_str().unwrap_or("").to_string(), entries, loaded }
 }
 
 /// Build through the public API: new + set_title + set_message. set_message unescapes
@@ -60,9 +70,44 @@ fn case_from_json(v: &Value) -> Case {
 /// that escaping is symmetric; here the stored value is what matters).
 fn judge(c: &Case, t: &mut Tally) -> Option<(String, String)> {
     let fmtname = format!("{:?}", c.cfg.fmt);
+    // expected content
+    let (want_title, want_entries): (String, Vec<(String, String)>) = match &c.loaded {
+        None => (c.title.clone(), c.entries.clone()),
+        Some(deleted) => {
+            let mut m = ref_text::TextModel::new();
+            for (k, v) in base_entries() {
+                m.set_message(&k, &ref_text::escape(&v));
+            }
+            for k in deleted {
+                m.delete_message(k);
+            }
+            for (k, v) in &c.entries {
+                m.set_message(k, &ref_text::escape(v));
+            }
+            (c.title.clone(), m.entries)
+        }
+    };
     let built = util::catch(|| {
         let mut a = TextArchive::new(mfmt(c.cfg.fmt), mend(c.cfg.e));
-        a.set_title(c.title.clone());
+        if let Some(deleted) = &c.loaded {
+            a.set_title(BASE_TITLE.to_string());
+            for (k, m) in base_entries() {
+                a.set_message(&k, &ref_text::escape(&m));
+            }
+            let bytes = a.serialize().map_err(|e| e.to_string());
+            a = match bytes.and_then(|b| TextArchive::from_bytes(&b, mfmt(c.cfg.fmt), mend(c.cfg.e)).map_err(|e| e.to_string())) {
+                Ok(x) => x,
+                Err(e) => return (vec![], Err(format!("loading the base archive failed: {}", e))),
+            };
+            for k in deleted {
+                a.delete_message(k);
+            }
+            if c.title != BASE_TITLE || c.cfg.fmt == Fmt::ShiftJis {
+                a.set_title(c.title.clone());
+            }
+        } else {
+            a.set_title(c.title.clone());
+        }
         for (k, m) in &c.entries {
             // a stored value that contains a literal backslash followed by 'n' cannot be set
             // through set_message; the families avoid it (see explore()).
@@ -76,9 +121,11 @@ fn judge(c: &Case, t: &mut Tally) -> Option<(String, String)> {
         Err(p) => return Some((format!("panic@{}", p.location), format!("building/serializing panicked: {}", p.message))),
         Ok(x) => x,
     };
-    if stored != c.entries {
-        return Some(("machinery:stored".into(), format!("set_message stored {:?} instead of {:?}", stored, c.entries)));
+    if stored != want_entries {
+        return Some(("in-memory-content".into(), format!("the archive holds {:?} instead of {:?} before serialization", stored, want_entries)));
     }
+    // from here on `c` stands for the expected content
+    let c = &Case { cfg: c.cfg, title: want_title, entries: want_entries, loaded: None };
     let img = match img {
         Err(e) => return Some((format!("serialize-err:{}", fmtname), format!("serialize failed: {}", e))),
         Ok(i) => i,
@@ -158,7 +205,7 @@ fn family1() -> Vec<Case> {
         for title in titles {
             for l in &lists {
                 for ms in util::odometer(3, l.len()) {
-                    out.push(Case { cfg, title: title.to_string(), entries: l.iter().zip(ms.iter()).map(|(k, m)| (KEYS[*k].to_string(), MSG3[*m].to_string())).collect() });
+                    out.push(Case { cfg, title: title.to_string(), entries: l.iter().zip(ms.iter()).map(|(k, m)| (KEYS[*k].to_string(), MSG3[*m].to_string())).collect(), loaded: None });
                 }
             }
         }
@@ -231,7 +278,7 @@ fn explore(ctx: &Ctx) -> Outcome {
                     t.class("skipped:literal-backslash-n-cannot-be-set");
                     return t;
                 }
-                let c = Case { cfg, title: "T".into(), entries: vec![("first".into(), "x".into()), ("K".into(), m), ("last".into(), "yz".into())] };
+                let c = Case { cfg, title: "T".into(), entries: vec![("first".into(), "x".into()), ("K".into(), m), ("last".into(), "yz".into())], loaded: None };
                 t.cases += 1;
                 t.nontrivial += 1;
                 if let Some((sig, summary)) = judge(&c, &mut t) {
@@ -265,7 +312,7 @@ fn explore(ctx: &Ctx) -> Outcome {
                     if has_backslash_n(&m) {
                         continue;
                     }
-                    let c = Case { cfg, title: "".into(), entries: vec![("K".into(), m)] };
+                    let c = Case { cfg, title: "".into(), entries: vec![("K".into(), m)], loaded: None };
                     t.cases += 1;
                     t.nontrivial += 1;
                     if let Some((sig, summary)) = judge(&c, &mut t) {
@@ -278,10 +325,36 @@ fn explore(ctx: &Ctx) -> Outcome {
         layers.push(json!({"family": "single-character sweep c / xc / cx", "fmt": format!("{:?}", cfg.fmt), "endian": format!("{:?}", cfg.e), "characters": chars.len(), "completed": true}));
         total.absorb(t);
     }
+    // family 4: load → edit → save
+    let mut f4: Vec<Case> = Vec::new();
+    for cfg in CFGS {
+        for mask in 0..8u32 {
+            let deleted: Vec<String> = ["first", "K", "last"].iter().enumerate().filter(|(i, _)| mask & (1 << i) != 0).map(|(_, k)| k.to_string()).collect();
+            for title in [BASE_TITLE, "new title"] {
+                let sets: Vec<Vec<(String, String)>> = vec![vec![], vec![("K".into(), "changed".into())], vec![("new".into(), "v".into())], vec![("first".into(), "".into())], vec![("last".into(), "日本".into()), ("K".into(), "again".into())]];
+                for set in sets {
+                    f4.push(Case { cfg, title: title.to_string(), entries: set, loaded: Some(deleted.clone()) });
+                }
+            }
+        }
+    }
+    let t = f4
+        .par_iter()
+        .fold(Tally::new, |mut t, c| {
+            t.cases += 1;
+            t.nontrivial += 1;
+            if let Some((sig, summary)) = judge(c, &mut t) {
+                t.violate(format!("loaded-then-edited:{}", sig), summary, case_json(c));
+            }
+            t
+        })
+        .reduce(Tally::new, Tally::merge);
+    layers.push(json!({"family": "load → edit (delete subsets × title × sets) → save", "cases": f4.len(), "completed": true}));
+    total.absorb(t);
     total.sample(case_json(&f1[f1.len() / 2]));
-    total.sample(case_json(&Case { cfg: CFGS[0], title: "T".into(), entries: vec![("K".into(), "\u{FEFF}a".into())] }));
+    total.sample(case_json(&Case { cfg: CFGS[0], title: "T".into(), entries: vec![("K".into(), "\u{FEFF}a".into())], loaded: None }));
     let mut o = total.into_outcome(
-        "three families through new/set_title/set_message → serialize → (a) from_bytes with the same format/endianness and (b) an independent reader of the image (record alignment, key = label of the record address, terminators/padding): (1) 4 configs × 6 titles × all ordered lists of 0..=3 distinct keys from 4 × all message assignments from 3; (2) per config ALL strings of 0..=n symbols over {a, newline, backslash, é, 日, 😀, U+FEFF, U+FFFE, U+BBEF, U+00BF} (restricted to the encoding's domain) as the middle message of three; (3) every character of the encoding's domain (all 1 112 063 Unicode scalars but NUL / all 7 517 Shift-JIS-lossless code points) as c, xc, cx. non-trivial = archive with ≥ 1 entry",
+        "three families through new/set_title/set_message → serialize → (a) from_bytes with the same format/endianness and (b) an independent reader of the image (record alignment, key = label of the record address, terminators/padding): (1) 4 configs × 6 titles × all ordered lists of 0..=3 distinct keys from 4 × all message assignments from 3; (2) per config ALL strings of 0..=n symbols over {a, newline, backslash, é, 日, 😀, U+FEFF, U+FFFE, U+BBEF, U+00BF} (restricted to the encoding's domain) as the middle message of three; (4) load → edit → save: a parsed 3-entry archive edited by every subset of deletes × title change × 5 set_message lists; (3) every character of the encoding's domain (all 1 112 063 Unicode scalars but NUL / all 7 517 Shift-JIS-lossless code points) as c, xc, cx. non-trivial = archive with ≥ 1 entry",
         true,
         vec![("layers", json!(layers))],
     );
@@ -297,7 +370,7 @@ fn replay(_ctx: &Ctx, case: &Value) -> Vec<Violation> {
     let c = case_from_json(case);
     let mut t = Tally::new();
     match judge(&c, &mut t) {
-        Some((sig, summary)) => vec![Violation { sig, summary, case: case.clone() }],
+        Some((sig, summary)) => vec![Violation { sig: if c.loaded.is_some() { format!("loaded-then-edited:{}", sig) } else { sig }, summary, case: case.clone() }],
         None => vec![],
     }
 }
